@@ -114,7 +114,7 @@ VARIABLES t
 Plain == <<"a">>
 Small == Str(PairN)
 
-VertexTuples(z) == {[g |-> g, id |-> id, l |-> Plain] : g \in {x \in Str(MaxN) : AccGraph(x)}, id \in Str(MaxN) \ {<<>>}}
+VertexTuples(z) == {[g |-> g, id |-> id, l |-> Plain] : g \in {x \in Str(IF MaxN > 2 THEN 2 ELSE MaxN) : AccGraph(x)}, id \in Str(MaxN) \ {<<>>}}
 EdgePairs(z) ==
   LET C == <<"g", "id", "s", "d", "l">>
       Rec(i, x, j, y) == [c \in {"g", "id", "s", "d", "l"} |-> IF c = C[i] THEN x ELSE IF c = C[j] THEN y ELSE Plain]
